@@ -10,7 +10,10 @@ from pvc import values as V
 from pvc.values import CArr, LArr
 from pvc.arrays import to_carr, to_larr
 from pvc.runner import harness
-from .common import DOMAIN, sym_domain, euclid, mul_mono, real_vec
+from .common import DOMAIN, sym_domain, euclid, mul_mono, real_vec, replay_on_grid
+import os
+
+GRID_REPLAY = replay_on_grid('C13', ['numbering', 'connectivity'])
 
 P = 'C13'
 T = lambda m: f'{DOMAIN}.{m}'
@@ -48,7 +51,7 @@ def layout_hints(c, t, nx_, ny_, nzz):
 
 # ------------------------------------------------------------------------------------------------ counts
 for _dim in (2, 3):
-    @harness(P, f'__init__.counts[dim={_dim}]', targets=[T('__init__')])
+    @harness(P, f'__init__.counts[dim={_dim}]', targets=[T('__init__')], replay=GRID_REPLAY)
     def h_counts(ctx, it, dim=_dim):
         """nel, nnodes, dim, elemnodes as documented"""
         nx_, ny_, nz_ = ctx.sym('nelx'), ctx.sym('nely'), ctx.sym('nelz')
@@ -77,7 +80,7 @@ def _box(ctx, pre, nx, ny, nzz, node=False):
 
 
 for _dim in (2, 3):
-    @harness(P, f'get_elemnumber.bijection[dim={_dim}]', targets=[T('get_elemnumber')])
+    @harness(P, f'get_elemnumber.bijection[dim={_dim}]', targets=[T('get_elemnumber')], replay=GRID_REPLAY)
     def h_elemnumber(ctx, it, dim=_dim):
         """element number is a bijection between the index box and [0, nel)"""
         dom, (nx, ny, nz), _ = sym_domain(ctx, it, dim)
@@ -110,7 +113,7 @@ for _dim in (2, 3):
             # 2D call form with the default elk=0
             ctx.prove('default_k', it.call(f, [i, j]) == it.call(f, [i, j, 0]))
 
-    @harness(P, f'get_nodenumber.bijection[dim={_dim}]', targets=[T('get_nodenumber'), T('get_node_indices')])
+    @harness(P, f'get_nodenumber.bijection[dim={_dim}]', targets=[T('get_nodenumber'), T('get_node_indices')], replay=GRID_REPLAY)
     def h_nodenumber(ctx, it, dim=_dim):
         """node number is a bijection between the node index box and [0, nnodes); get_node_indices is its inverse"""
         dom, (nx, ny, nz), _ = sym_domain(ctx, it, dim)
@@ -164,7 +167,7 @@ for _dim in (2, 3):
 
 # ------------------------------------------------------------------------------------------------ positions
 for _dim in (2, 3):
-    @harness(P, f'get_node_position.scaled_index[dim={_dim}]', targets=[T('get_node_position'), T('get_node_indices')])
+    @harness(P, f'get_node_position.scaled_index[dim={_dim}]', targets=[T('get_node_position'), T('get_node_indices')], replay=GRID_REPLAY)
     def h_position(ctx, it, dim=_dim):
         """node position = Cartesian index times element size"""
         dom, (nx, ny, nz), (ux, uy, uz) = sym_domain(ctx, it, dim)
@@ -179,7 +182,7 @@ for _dim in (2, 3):
 
 # ------------------------------------------------------------------------------------------------ connectivity
 for _dim in (2, 3):
-    @harness(P, f'get_elemconnectivity.corners[dim={_dim}]', targets=[T('get_elemconnectivity')])
+    @harness(P, f'get_elemconnectivity.corners[dim={_dim}]', targets=[T('get_elemconnectivity')], replay=GRID_REPLAY)
     def h_elemconn(ctx, it, dim=_dim):
         """connectivity of element (i,j,k) lists its 2^dim corner nodes in the documented local order, all distinct"""
         dom, (nx, ny, nz), _ = sym_domain(ctx, it, dim)
@@ -196,7 +199,7 @@ for _dim in (2, 3):
             ctx.prove(f'corner[{cc}]', V.cmp('==', c.data[cc], want))
         ctx.prove('distinct', z3.Distinct(*[V.zint(x) for x in c.data]))
 
-    @harness(P, f'__init__.conn[dim={_dim}]', targets=[T('__init__'), T('get_elemconnectivity'), T('get_elemnumber')], tier=('quick' if _dim == 2 else 'experimental'))
+    @harness(P, f'__init__.conn[dim={_dim}]', targets=[T('__init__'), T('get_elemconnectivity'), T('get_elemnumber')], tier=('quick' if _dim == 2 else 'experimental'), replay=GRID_REPLAY)
     def h_conn(ctx, it, dim=_dim):
         """conn[e, c] is corner c of the element whose number is e (every row is defined exactly once); elements/nodes tables"""
         nx_, ny_, nz_ = ctx.sym('nelx'), ctx.sym('nely'), ctx.sym('nelz')
@@ -239,7 +242,7 @@ for _dim in (2, 3):
                                            list(zip(els.shape, (nx, ny, nzz))) + list(zip(nds.shape, (V.add(nx, 1), V.add(ny, 1), V.add(nz, 1))))]))
 
 
-@harness(P, 'get_dofconnectivity.expand', targets=[T('get_dofconnectivity')])
+@harness(P, 'get_dofconnectivity.expand', targets=[T('get_dofconnectivity')], replay=GRID_REPLAY)
 def h_dofconn(ctx, it):
     """dofconn[e, c*ndof + d] == conn[e, c]*ndof + d  for an arbitrary connectivity table and any ndof >= 1"""
     cls = it.get_function(DOMAIN)
@@ -315,7 +318,7 @@ for _dim in (1, 2, 3):
 
 
 for _dim in (2, 3):
-    @harness(P, f'get_elemconnectivity.array_args[dim={_dim}]', targets=[T('get_elemconnectivity')])
+    @harness(P, f'get_elemconnectivity.array_args[dim={_dim}]', targets=[T('get_elemconnectivity')], replay=GRID_REPLAY)
     def h_elemconn_arr(ctx, it, dim=_dim):
         """vectorised form: for index arrays of any (here rank-dim, symbolic) shape the result has the argument shape plus a trailing
         local-node axis, result[..., c] = corner c of element (i[...], j[...], k[...])"""
